@@ -290,6 +290,7 @@ type Eval struct {
 	busy   map[ssa.Value]bool
 	idx    map[ssa.Instruction]int
 	pidx   map[*ssa.Parameter]int
+	depth  int
 }
 
 var evalCache = map[*ssa.Function]*Eval{}
@@ -441,6 +442,9 @@ func (e *Eval) index() {
 					if _, isSl := a.Type().Underlying().(*types.Slice); isSl && base == a {
 						continue // a plain slice value: its backing array is not an object tracked here
 					}
+					if readOnlyArg(cc, a) {
+						continue // summarised callee only reads through this pointer
+					}
 					add(base, event{instr: ins, path: path, kind: "clobber", who: name})
 				}
 			case *ssa.MakeClosure:
@@ -460,6 +464,65 @@ func (e *Eval) index() {
 			}
 		}
 	}
+}
+
+// ModulePrefix selects the callees that are summarised (same module as the analysed code).
+var ModulePrefix = "github.com/brocaar/lorawan"
+
+// InModule reports whether fn has a body and belongs to the analysed module.
+func InModule(fn *ssa.Function) bool {
+	if fn == nil || fn.Blocks == nil {
+		return false
+	}
+	if fn.Pkg != nil {
+		return strings.HasPrefix(fn.Pkg.Pkg.Path(), ModulePrefix)
+	}
+	if o := fn.Object(); o != nil && o.Pkg() != nil {
+		return strings.HasPrefix(o.Pkg().Path(), ModulePrefix)
+	}
+	if fn.Parent() != nil {
+		return InModule(fn.Parent())
+	}
+	return false
+}
+
+type roKey struct {
+	fn *ssa.Function
+	i  int
+}
+
+var roCache = map[roKey]bool{}
+
+// readOnlyArg: the static in-module callee only reads through pointer argument a.
+func readOnlyArg(cc *ssa.CallCommon, a ssa.Value) bool {
+	callee := cc.StaticCallee()
+	if callee == nil || !InModule(callee) {
+		return false
+	}
+	for i, x := range cc.Args {
+		if stripIface(x) != a {
+			continue
+		}
+		if _, ok := x.(*ssa.MakeInterface); ok {
+			return false
+		}
+		k := roKey{callee, i}
+		ro, ok := roCache[k]
+		if !ok {
+			acc, prob := ParamAccesses(callee, i, InModule)
+			ro = len(prob) == 0
+			for _, ac := range acc {
+				if ac.Kind != "read" {
+					ro = false
+				}
+			}
+			roCache[k] = ro
+		}
+		if !ro {
+			return false
+		}
+	}
+	return true
 }
 
 func stripIface(v ssa.Value) ssa.Value {
@@ -541,7 +604,10 @@ func (e *Eval) Select(v ssa.Value, path []string, at ssa.Instruction) *Term {
 		if t.Type == nil {
 			t.Type = v.Type()
 		}
-		e.memo[v] = t
+		// the description of a pointer to a local depends on the asking position: do not cache it
+		if !t.Has(func(x *Term) bool { return x.Op == "addr" || x.Op == "alloc" }) {
+			e.memo[v] = t
+		}
 		return t
 	}
 	return e.eval(v, path, at)
@@ -593,6 +659,15 @@ func (e *Eval) eval(v ssa.Value, path []string, at ssa.Instruction) *Term {
 		base, p := baseOf(x)
 		return mk("addr", "", e.Select(base, nil, at).Field(p...))
 	case *ssa.Alloc:
+		// a pointer to a local/new object used as a value: describe what it points to at `at`
+		if at != nil && e.depth < 12 {
+			e.depth++
+			inner := e.SelectAddr(x, nil, at)
+			e.depth--
+			if !inner.IsUnknown() {
+				return mk("addr", "", inner)
+			}
+		}
 		return mk("alloc", allocName(x))
 	case *ssa.ChangeType:
 		return e.Select(x.X, path, at)
@@ -709,12 +784,8 @@ func (e *Eval) callTerm(c *ssa.Call) *Term {
 // `f(&x)` and `x.m()` calls show what they receive.
 func (e *Eval) argTerm(a ssa.Value, at ssa.Instruction) *Term {
 	if isPointerLike(a.Type()) {
-		base, p := baseOf(a)
-		switch base.(type) {
-		case *ssa.Alloc:
-			if isStructish(derefType(a.Type())) {
-				return mk("addr", "", e.Select(base, nil, at).Field(p...))
-			}
+		base, _ := baseOf(a)
+		if _, ok := base.(*ssa.Alloc); ok {
 			return mk("addr", "", e.SelectAddr(a, nil, at))
 		}
 	}
@@ -790,7 +861,11 @@ func (w *memWalk) initial(at ssa.Instruction) *Term {
 	case *ssa.FreeVar:
 		return mk("freevar", b.Name()).Field(w.full...)
 	}
-	return e.Select(w.base, nil, at).Field(w.full...)
+	bt := e.Select(w.base, nil, at)
+	if len(w.full) == 0 {
+		return mk("deref", "", bt)
+	}
+	return bt.Field(w.full...)
 }
 
 // before: value just before instruction index i of block b.
@@ -864,10 +939,18 @@ func (w *memWalk) atStart(b *ssa.BasicBlock) *Term {
 }
 
 // record describes an aggregate that was written piecewise, as seen just before instruction index i of
-// block b: rec(fld(f;term), …) with zero fields omitted.
+// block b: rec(fld(f;term), …) with zero fields omitted; small arrays become arr(e0, e1, …).
 func (e *Eval) record(base ssa.Value, full []string, _ ssa.Instruction, b *ssa.BasicBlock, i int) *Term {
 	t := derefType(base.Type())
 	for _, f := range full {
+		if strings.HasPrefix(f, "[") {
+			arr, ok := t.Underlying().(*types.Array)
+			if !ok {
+				return Unknown("aggregate path " + strings.Join(full, "."))
+			}
+			t = arr.Elem()
+			continue
+		}
 		st, ok := t.Underlying().(*types.Struct)
 		if !ok {
 			return Unknown("aggregate " + strings.Join(full, ".") + " is not a struct")
@@ -884,36 +967,46 @@ func (e *Eval) record(base ssa.Value, full []string, _ ssa.Instruction, b *ssa.B
 			return Unknown("aggregate path " + strings.Join(full, "."))
 		}
 	}
-	st, ok := t.Underlying().(*types.Struct)
-	if !ok {
-		return Unknown("aggregate " + strings.Join(full, ".") + " read after partial store")
-	}
 	if len(full) > 8 {
 		return Unknown("aggregate too deep")
 	}
-	r := mk("rec", "")
-	for k := 0; k < st.NumFields(); k++ {
-		sub := append(append([]string{}, full...), st.Field(k).Name())
-		w := &memWalk{e: e, base: base, full: sub, memo: map[*ssa.BasicBlock]*Term{}, byInstr: map[ssa.Instruction]*event{}}
+	sub := func(name string) *Term {
+		sp := append(append([]string{}, full...), name)
+		w := &memWalk{e: e, base: base, full: sp, memo: map[*ssa.BasicBlock]*Term{}, byInstr: map[ssa.Instruction]*event{}}
 		for j := range e.events[base] {
 			ev := &e.events[base][j]
-			if ev.kind != "escape" && overlap(ev.path, sub) {
+			if ev.kind != "escape" && overlap(ev.path, sp) {
 				w.byInstr[ev.instr] = ev
 				w.n++
 			}
 		}
-		var ft *Term
 		if w.n == 0 {
-			ft = w.initial(b.Instrs[0])
-		} else {
-			ft = w.before(b, i)
+			return w.initial(b.Instrs[0])
 		}
-		if ft.Op == "zero" {
-			continue
-		}
-		r.Args = append(r.Args, mk("fld", st.Field(k).Name(), ft))
+		return w.before(b, i)
 	}
-	return r
+	switch u := t.Underlying().(type) {
+	case *types.Struct:
+		r := mk("rec", "")
+		for k := 0; k < u.NumFields(); k++ {
+			ft := sub(u.Field(k).Name())
+			if ft.Op == "zero" {
+				continue
+			}
+			r.Args = append(r.Args, mk("fld", u.Field(k).Name(), ft))
+		}
+		return r
+	case *types.Array:
+		if u.Len() > 16 {
+			return Unknown("large array written piecewise")
+		}
+		r := mk("arr", "")
+		for k := int64(0); k < u.Len(); k++ {
+			r.Args = append(r.Args, sub(fmt.Sprintf("[%d]", k)))
+		}
+		return r
+	}
+	return Unknown("aggregate " + strings.Join(full, ".") + " read after partial store")
 }
 
 func (e *Eval) callBetween(a, b ssa.Instruction) bool {
